@@ -221,6 +221,9 @@ type svAcc struct {
 }
 
 func (a *svAcc) fail(key, input, format string, args ...any) {
+	if stopped() {
+		return
+	}
 	a.mu.Lock()
 	a.c.Fail(key, input, format, args...)
 	a.mu.Unlock()
@@ -438,6 +441,9 @@ func svParallelEnum(c *Ctx, alpha string, maxLen int, visit func(sh *svShard, s 
 				buf = append(buf, alpha[k/n], alpha[k%n])
 				var rec func()
 				rec = func() {
+					if stopped() {
+						return
+					}
 					visit(sh, buf)
 					if len(buf) >= maxLen {
 						return
@@ -469,6 +475,9 @@ func svRows(n int, visit func(row int)) {
 		go func() {
 			defer wg.Done()
 			for i := range jobs {
+				if stopped() {
+					continue
+				}
 				visit(i)
 			}
 		}()
